@@ -345,6 +345,7 @@ func c04Mode(got, want []string) string {
 func (p *c04) RunCase(i int) *core.CaseResult {
 	defer withNoise()()
 	r := &core.CaseResult{}
+	defer withUsage(r, "C04")()
 	c := &p.cases[i]
 	sql := p.sqlOf(c)
 	if c.sched {
